@@ -213,3 +213,8 @@ Definition bylevel (l : list effect) : list effect :=
    (stable inside a level), expressions are normalised like in the expression layer *)
 Definition norm_effs (effs : list effect) : list effect :=
   map norm_eff (bylevel (filter (fun e => negb (is_false (e_cond e))) effs)).
+
+(* the keywords _add_effect dispatches on: a fluent with such a name would not be read as a positive literal *)
+Definition is_eff_kw (h : string) : bool :=
+  (h =? "and") || (h =? "when") || (h =? "not") || (h =? "assign") || (h =? "increase") || (h =? "decrease")
+  || (h =? "forall").
